@@ -278,8 +278,11 @@ class AstToSqlVisitor(visitor.NodeVisitor):
         Transform a node into a pattern usable in `LIKE` clauses.
         :meta private:
         """
-        if isinstance(arg, (ast.Identifier, ast.Call)):
+        if not isinstance(getattr(arg, "val", None), str):
+            # Not a literal with a textual value: concatenate the translated expression
             res = self.visit(arg)
+            if not isinstance(arg, (ast.Identifier, ast.Call)):
+                res = f"({res})"
             if prefix:
                 res = f"'{prefix}' || " + res
             if suffix:
